@@ -245,6 +245,26 @@ def b_batch_gradient(ctx):
                              "multi = A.perform_fkm_nonlinear_assessment(pb, pd.Series([float(v) for v in seq for _ in gs], index=idx), calculate_P_RAM=True, calculate_P_RAJ=True)\n"
                              f"ps = p.copy(); ps['G'] = {g}\nsingle = A.perform_fkm_nonlinear_assessment(ps, pd.Series([float(v) for v in seq]), calculate_P_RAM=True, calculate_P_RAJ=True)\n"
                              f"print(multi['{keys[0]}'], single['{keys[0]}'])\n")
+        # the labels of the G Series mean nothing ("the order of the G values has to match the order of the assessment points, the actual values of the index are
+        # irrelevant", docstring of perform_fkm_nonlinear_assessment): ids that are not ascending, descending ids, repeated labels give the result of the plain labelling
+        # point by point (added after seed C10-g sorted the gradients by their labels in calculate_nonlocal_parameters)
+        n_ = len(gs)
+        for lname, labels in (('ids-not-ascending', [30, 10, 20, 5][:n_]), ('descending', list(range(n_, 0, -1))), ('repeated', [0, 1, 0, 1][:n_])):
+            prm_v = prm.copy()
+            prm_v['G'] = pd.Series(list(gs), index=pd.Index(labels, name='node_id'))
+            ctx.case(len(set(gs)) > 1, key=(tuple(seq), gs, lname))
+            try:
+                multi_v = assess(prm_v, batch_series(seq, ratios))
+            except Exception as e:   # noqa
+                ctx.fail(f'C10:batch-gradient-labels:{lname}:raises:{type(e).__name__}', f'assessment with per-point gradients {gs} labelled {labels} raises {type(e).__name__}: {str(e)[:160]}', {'sequence': seq, 'G': gs, 'labels': labels})
+                continue
+            for i, g in enumerate(gs):
+                for fam, keys in (('P_RAM', KEYS_RAM), ('P_RAJ', KEYS_RAJ)):
+                    a, b = float(val(multi_v, keys[0], i)), float(val(multi, keys[0], i))
+                    ia, ib = bool(val(multi_v, keys[1], i)), bool(val(multi, keys[1], i))
+                    if ia != ib or not (a == b or abs(a - b) <= 1e-9 * max(abs(a), abs(b))):
+                        ctx.fail(f'C10:batch-gradient-labels:{fam}', f'{fam}: point {i} (G = {g}) of {seq}: lifetime {a} / infinite {ia} with the gradients {gs} labelled {labels}, {b} / {ib} with the labels 0..{n_ - 1}',
+                                 {'sequence': seq, 'G': gs, 'labels': labels})
     ctx.sample({'sequence': [100, -200, 100, -250, 200, 0, 200, -200], 'G': (0.2, 10.0, 20.0)})
 
 
